@@ -98,6 +98,61 @@ pub fn expand_attr(attr: &str, item: &str) -> Result<TokenStream, String> {
     catch_unwind(AssertUnwindSafe(|| dxlib::derive_ex(a, i))).map_err(|e| format!("panic: {}", panic_msg(e)))
 }
 
+/// Like `expand_attr`, followed by what rustc does next: while the re-emitted item still carries an attribute
+/// written with a path (`#[derive_ex::derive_ex(..)]`, `#[::derive_ex::derive_ex(..)]`) - which the first invocation
+/// cannot recognise as its own sibling - that attribute is expanded in turn on the re-emitted item. The result is
+/// the final item followed by the generated items in the order the lists were written.
+pub fn expand_attr_iterated(attr: &str, item: &str) -> Result<TokenStream, String> {
+    use quote::ToTokens;
+    let mut ts = expand_attr(attr, item)?;
+    for _ in 0..8 {
+        let file: syn::File = match syn::parse2(ts.clone()) {
+            Ok(f) => f,
+            Err(_) => return Ok(ts),
+        };
+        let mut items = file.items;
+        if items.is_empty() {
+            return Ok(ts);
+        }
+        let mut first = items.remove(0);
+        let attrs: &mut Vec<syn::Attribute> = match &mut first {
+            syn::Item::Struct(x) => &mut x.attrs,
+            syn::Item::Enum(x) => &mut x.attrs,
+            _ => return Ok(ts),
+        };
+        let pos = attrs.iter().position(|a| {
+            let segs: Vec<String> = a.path().segments.iter().map(|s| s.ident.to_string()).collect();
+            segs == ["derive_ex", "derive_ex"]
+        });
+        let Some(pos) = pos else { return Ok(ts) };
+        let a = attrs.remove(pos);
+        let args: TokenStream = match &a.meta {
+            syn::Meta::List(l) => l.tokens.clone(),
+            _ => TokenStream::new(),
+        };
+        let inner_item = first.to_token_stream();
+        let out = catch_unwind(AssertUnwindSafe(|| dxlib::derive_ex(args, inner_item))).map_err(|e| format!("panic: {}", panic_msg(e)))?;
+        // final order: item, items generated earlier, items generated now
+        let inner: syn::File = match syn::parse2(out.clone()) {
+            Ok(f) => f,
+            Err(e) => return Err(format!("nested expansion does not parse: {e}")),
+        };
+        let mut n = TokenStream::new();
+        let mut it = inner.items.into_iter();
+        if let Some(i0) = it.next() {
+            n.extend(i0.to_token_stream());
+        }
+        for i in items {
+            n.extend(i.to_token_stream());
+        }
+        for i in it {
+            n.extend(i.to_token_stream());
+        }
+        ts = n;
+    }
+    Ok(ts)
+}
+
 /// `#[derive(Ex)] <item>` through the derive-macro entry point (`item` still carries its
 /// `#[derive_ex(..)]` attributes, exactly as rustc hands it over).
 pub fn expand_derive(item: &str) -> Result<TokenStream, String> {
